@@ -115,15 +115,70 @@ def gen_case(rng, i, tier, pool):
     tip = rng.choice(["partials_amb", "partials_noamb", "states"])
     case = dict(tree=t, n=n, names=names, taxa_order=taxa_order, seq_order=seq_order, seqs=seqs,
                 subst=sp, site=sm, treem=tr, tip=tip)
+    if rng.random() < 0.3:
+        # the site pattern selects columns of a longer alignment (`indices`: positions and slices, repeats count)
+        L = rng.randint(4, 12)
+        case["seqs"] = gen_alignment(rng, n, L)
+        if rng.random() < 0.5:      # make some selected columns equal: a pattern met in two ranges must add up
+            col = rng.randrange(L)
+            case["seqs"] = [sq[:-1] + sq[col] for sq in case["seqs"]]
+        case["indices"] = gen_indices(rng, L)
     if n <= 5 and rng.random() < (0.04 if tier == "quick" else 0.12):
         # amino-acid alignment with an empirical model (20 states): few, they are expensive
         case["subst"] = dict(type=rng.choice(["LG", "WAG"]))
+        case.pop("indices", None)
         nsites = rng.randint(2, 4)
         case["seqs"] = ["".join(rng.choice(AA_ALPHABET if rng.random() < 0.25 else AA_ALPHABET[:20])
                                 for _ in range(nsites)) for _ in range(n)]
         if sm["type"].startswith("weibull"):
             sm["K"] = 2
     return case
+
+
+def gen_indices(rng, L):
+    """A column selection in the syntax of SitePattern's `indices` option: comma separated single positions
+    (negative ones count from the end) and slices start:stop:step with optional parts.  At least one column."""
+    for _ in range(50):
+        items = []
+        for _k in range(rng.randint(1, 4)):
+            kind = rng.random()
+            if kind < 0.3:
+                items.append(str(rng.choice([-1, -1, -L, 0, L - 1, rng.randrange(-L, L)])))
+            elif kind < 0.55:
+                step = rng.choice([2, 3])
+                items.append(f"{rng.choice(['', str(rng.randrange(0, step))])}::{step}")      # codon positions
+            else:
+                a = rng.choice(["", str(rng.randrange(-L, L))])
+                b = rng.choice(["", str(rng.randrange(-L, L + 1))])
+                c = rng.choice(["", "", "2"])
+                items.append(f"{a}:{b}" + (f":{c}" if c else ""))
+        txt = ",".join(items)
+        if 1 <= len(select_columns("x" * L, txt)) <= 24:
+            return txt
+    return "0"
+
+
+def select_columns(seq, indices):
+    """the columns of one sequence selected by an `indices` string (own parser, python indexing semantics);
+    columns selected several times count several times"""
+    if not indices:
+        return seq
+    out = ""
+    for item in indices.split(","):
+        parts = item.split(":")
+        if len(parts) == 1:
+            out += seq[int(parts[0])]
+        else:
+            a = int(parts[0]) if parts[0] != "" else None
+            b = int(parts[1]) if len(parts) > 1 and parts[1] != "" else None
+            c = int(parts[2]) if len(parts) > 2 and parts[2] != "" else None
+            out += seq[slice(a, b, c)]
+    return out
+
+
+def used_seqs(case):
+    """the alignment the likelihood is about: the sequences restricted to the selected columns"""
+    return [select_columns(sq, case.get("indices")) for sq in case["seqs"]]
 
 
 # ----------------------------------------------------------------------------- implementation
@@ -189,6 +244,8 @@ def build(case):
            "sequences": [{"taxon": names[j], "sequence": case["seqs"][j]} for j in case["seq_order"]]}
     d = {"id": "like", "type": "TreeLikelihoodModel", "tree_model": tree, "site_model": site,
          "substitution_model": subst, "site_pattern": {"id": "sp", "type": "SitePattern", "alignment": aln}}
+    if case.get("indices"):
+        d["site_pattern"]["indices"] = case["indices"]
     if tr["kind"] != "unrooted":
         d["branch_model"] = {"id": "clock", "type": "StrictClockModel" if tr["kind"] == "strict" else "SimpleClockModel",
                              "tree_model": "tree", "rate": impl.param_json("rate", tr["rate"])}
@@ -256,7 +313,8 @@ def coq_case(case, out):
     mats = C.coq_list(out["mats"], lambda per: C.coq_list(per, lambda M: C.coq_list(M, lambda row: C.coq_list(row, I))))
     tip = {"partials_amb": "(TipPartials true)", "partials_noamb": "(TipPartials false)", "states": "TipStates"}[case["tip"]]
     taxa = C.coq_list(case["taxa_order"], C.natlit)
-    seqs = C.coq_list(case["seq_order"], lambda j: f"({C.natlit(j)}, {C.coq_list([ord(ch) for ch in case['seqs'][j]], C.natlit)})")
+    sel = used_seqs(case)
+    seqs = C.coq_list(case["seq_order"], lambda j: f"({C.natlit(j)}, {C.coq_list([ord(ch) for ch in sel[j]], C.natlit)})")
     fn = "loglik_aa" if case["subst"]["type"] in ("LG", "WAG") else "loglik_nuc"
     return (f"show_i ({fn} NumI {tip} {taxa} {seqs} {trees.coq_tree(case['tree'])} "
             f"{C.coq_list(out['freqs'], I)} {mats} {C.coq_list(out['props'], I)})")
@@ -291,9 +349,10 @@ def brute_force(case, out):
             collect(u[1]); collect(u[2]); internals.append(u[0])
     collect(it)
     edges = trees.edges(it)
-    seq_by_pos = {pos[j]: case["seqs"][j] for j in range(n)}
+    sel = used_seqs(case)
+    seq_by_pos = {pos[j]: sel[j] for j in range(n)}
     total = 0.0
-    nsites = len(case["seqs"][0])
+    nsites = len(sel[0])
     for site in range(nsites):
         lik = 0.0
         for k, pk in enumerate(out["props"]):
